@@ -151,11 +151,15 @@ func ParseLBMethodForPlus(method string) (string, error) {
 	return "", fmt.Errorf("invalid load balancing method: %q", method)
 }
 
+// hashKeyRegexp is the key of the hash load balancing method: one NGINX word, that is no whitespace, no ';', no quotes,
+// no backslash, no '#', and curly braces only around the name of a ${variable}.
+var hashKeyRegexp = regexp.MustCompile(`^(?:[^\s;{}\\"'#]|\$\{[^\s;{}\\"'#]*\})+$`)
+
 func validateHashLBMethod(method string) (string, error) {
 	keyWords := strings.Split(method, " ")
 
 	if keyWords[0] == "hash" {
-		if len(keyWords) == 2 || (len(keyWords) == 3 && keyWords[2] == "consistent") {
+		if (len(keyWords) == 2 || (len(keyWords) == 3 && keyWords[2] == "consistent")) && hashKeyRegexp.MatchString(keyWords[1]) {
 			return method, nil
 		}
 	}
